@@ -53,6 +53,7 @@ class Plain:
     def lead(self): return "  "
     def tail(self): return ""
     def mid(self): return " "
+    def glue(self): return False
     def between(self): return []
     eol = "\n"
 
@@ -78,6 +79,7 @@ class Fancy(Plain):
     def tail(self): return self.r.choice(["", "", " ; note", "\t;", " // c", "  /* c */", ";x", " ;;", " /**/", " /* 2*3 */", " /** doc */", " /* x **/",
                                           " /***/", " /* a / b */", " /* ; // */", " ; /* open", " // */ x", " /* \" */", " ; ends with a backslash \\", " // C:\\dir\\", " ;\\", " ; \\\\ "])
     def mid(self): return self.r.choice([" ", "\t", "  "])
+    def glue(self): return self.r.random() < 0.25
     def between(self): return self.r.choice([[], [], [""], ["; full line"], ["  // another"], ["\t"], ["/* block */"], ["", ";"], ["/* 1*2*3 */"], ["/****/"],
                                              ["  /* * */"], ["; .endif .else .if 0"], ["// .macro x"], ["; continued? \\"], ["// \\"]])
 
@@ -156,7 +158,8 @@ def render(lines, st):
                 parts.append(render_expr(o[1], 0, st))
         body = ("." + name if kind == "dir" else st.case(name))
         if parts:
-            body += st.mid() + st.delim().join(parts)
+            glue = kind == "dir" and st.glue() and parts[0][:1] in "0123456789$(\"'-~!"
+            body += ("" if glue else st.mid()) + st.delim().join(parts)
         line = (lab + ":" + st.mid() if lab else st.lead()) + body + st.tail()
         out.append(line)
     out += st.between()
